@@ -276,6 +276,17 @@ class C26(ByteChanSpec):
         case["opts"] = rng.choice(VIEW_OPTS) if rng.random() < 0.25 else []
         if "sweep" in case:
             case["opts"] = []  # the enumeration arm always decides (default options)
+        elif idx % 100 == 37:
+            # environment arm: the real command in a FRESH interpreter (module
+            # constants are computed at import) under a seeded environment —
+            # terminal size, locale, TERM — with default options
+            case["opts"] = []
+            case["env"] = {
+                "COLUMNS": rng.choice(["1", "10", "20", "40", "47", "48", "49", "60", "79", "80", "132", "500", ""]),
+                "LINES": rng.choice(["1", "24", "50", ""]),
+                "TERM": rng.choice(["dumb", "xterm", "vt100", ""]),
+                "LC_ALL": rng.choice(["C", "POSIX", "C.UTF-8", ""]),
+            }
         case["clock"] = [rng.choice([0.0, 0.0, 0.001, 0.05, 0.2, 1.0, 3600.0, -5.0, -3600.0]) for _ in range(rng.randrange(1, 6))]
         case["interval"] = rng.choice([0.1, 0.1, 0.0, 0.001, 10.0])
         return case
@@ -287,6 +298,10 @@ class C26(ByteChanSpec):
             yield dict(case, clock=[0.0])
         if case["interval"] != 0.1:
             yield dict(case, interval=0.1)
+        if case.get("env"):
+            for k in sorted(case["env"]):
+                if case["env"][k] != "":
+                    yield dict(case, env=dict(case["env"], **{k: ""}))
 
     def judge(self, case, clean, data, changed, events, stats):
         pre = R.run_deserialiser(data)
@@ -295,6 +310,8 @@ class C26(ByteChanSpec):
             return Outcome(DISCARD, events, stats=stats, ticks=pre.reads)
         if pre.verdict == "hang":
             return Outcome(VIOLATION, events, sig="C26/deserialiser-does-not-terminate", detail="the bitstream deserialiser the viewer is built on issued %d read() calls on a %d-byte stream without finishing (step budget exceeded)" % (pre.reads, len(data)), stats=stats, nontrivial=changed, ticks=pre.reads)
+        if case.get("env") is not None:
+            return self.judge_env(case, data, changed, pre, events, stats)
         fs = S.SimFS("/sim")
         fs.put("/sim/in/stream.vc2", data)
         clock = S.TimeShim(1000.0, case["clock"])
@@ -333,9 +350,46 @@ class C26(ByteChanSpec):
             )
         return Outcome(OK, events, stats=stats, nontrivial=changed, key=key, ticks=pre.reads)
 
+    def judge_env(self, case, data, changed, pre, events, stats):
+        import os
+        import shutil
+        import subprocess
+        import tempfile
+
+        from sim.core import PY, REPO
+
+        scratch = tempfile.mkdtemp(prefix="vc2_c26_", dir="/var/tmp")
+        try:
+            path = os.path.join(scratch, "stream.vc2")
+            with open(path, "wb") as f:
+                f.write(data)
+            env = {k: v for k, v in os.environ.items() if k not in ("COLUMNS", "LINES", "TERM", "LC_ALL", "LANG", "VERIF_NO_REEXEC")}
+            env.update({k: v for k, v in case["env"].items() if v != ""})
+            env["PYTHONHASHSEED"] = "0"
+            boot = "import sys; sys.path.insert(0, %r); from vc2_conformance.scripts.vc2_bitstream_viewer import main; sys.exit(main(sys.argv[1:]))" % REPO
+            try:
+                p = subprocess.run([PY, "-c", boot, path], env=env, stdout=subprocess.PIPE, stderr=subprocess.PIPE, timeout=600, cwd=scratch)
+                rc, err = p.returncode, p.stderr.decode(errors="replace")
+            except subprocess.TimeoutExpired:
+                rc, err = "timeout", ""
+        finally:
+            shutil.rmtree(scratch, ignore_errors=True)
+        events.append(("viewer-env", rc, sorted(case["env"].items())))
+        stats["env_rc:%s" % (rc,)] += 1
+        stats["runs:environment-arm"] += 1
+        key = "env|COLUMNS=%s|rc=%s" % (case["env"].get("COLUMNS"), rc)
+        if rc not in (0, 2, 3, 4):
+            return Outcome(
+                VIOLATION, events, sig="C26/env/status-%r" % (rc,),
+                detail="viewer (fresh interpreter, environment %r, default options) exited with status %r; stderr tail: %s" % (case["env"], rc, err[-500:]),
+                stats=stats, nontrivial=True, key=key, ticks=pre.reads,
+            )
+        return Outcome(OK, events, stats=stats, nontrivial=True, key=key, ticks=pre.reads)
+
     def extra_evidence(self, merged):
         st = merged["stats"]
         return {
+            "environment_arm_exit_statuses": {k[7:]: v for k, v in st.items() if k.startswith("env_rc:")},
             "faults_injected": {k[6:]: v for k, v in st.items() if k.startswith("fault:")},
             "exit_statuses_default_options": {k[3:]: v for k, v in st.items() if k.startswith("rc:")},
             "exit_statuses_observe_only_arm": {k[11:]: v for k, v in st.items() if k.startswith("observe_rc:")},
